@@ -717,15 +717,15 @@ def run(ctx):
         ctx.ob("R5", pc, f"check option {k} serialised from check.{k}", ok,
                "Check parameter, read from the same attribute" if ok else f"option {k!r} reads `{txt(v)}`")
     for name, f3 in (("_format_checks", fc), ("_deserialize_check_stats", des_cs), ("parse_check_statistics", fn(st, "parse_check_statistics"))):
-        reads_opts = any(isinstance(n, ast.Constant) and n.value == "options" for n in ast.walk(f3.node))
+        reads_opts = any(isinstance(n, ast.Constant) and n.value == "options" for g3 in same_module_helpers(ix, f3) for n in ast.walk(g3.node))
         ctx.ob("R5", f3, f"{name} consumes the 'options' entry", reads_opts,
                "handled" if reads_opts else "options written by parse_checks are passed to the Check constructor as a statistic")
     # every option that the writer emits is restored by each reader (generic loop over the mapping, or an explicit list)
     from ..util import Expander
     for name, f3 in (("_deserialize_check_stats", des_cs), ("parse_check_statistics", fn(st, "parse_check_statistics"))):
-        ex3 = Expander(f3.node)
         restored = None
-        for loop in [n for n in walk_no_nested(f3.node) if isinstance(n, ast.For)]:
+        for g3, loop in [(g3, n) for g3 in same_module_helpers(ix, f3) for n in walk_no_nested(g3.node) if isinstance(n, ast.For)]:
+            ex3 = Expander(g3.node)
             sets = [c for c in calls_in(loop) if callee_last(c) == "setattr" and len(c.args) == 3]
             if not sets:
                 continue
